@@ -219,8 +219,51 @@ def rule_g(chk: Check) -> None:
         chk.finding("G4", gt.key, "unvalidated-url", "get() no longer validates the URL (scheme gemini, length) before connecting", gt.loc())
 
 
+def rule_g6(chk: Check) -> None:
+    """The next hop is the target the server named: whichever accessor of the
+    response the follower reads (redirect_url / meta) hands out the whole meta
+    of a 3x response (surrounding white space may be stripped)."""
+    chk.rule("G6", "the redirect target followed is the server's meta as sent: the accessor the follower reads returns self.meta unaltered for 3x responses")
+    ci = chk.proj.cls("protocol.response:GeminiResponse")
+    follower = next((m for m in chk.proj.cls(SESSION).methods.values() if any(isinstance(x, ast.Attribute) and x.attr in ("redirect_url",) for x in walk(m.node))), None)
+    used = sorted({x.attr for x in walk(follower.node) if isinstance(x, ast.Attribute) and x.attr in ("redirect_url", "meta") and isinstance(x.value, ast.Name)}) if follower else []
+    chk.require("G6", SESSION, "redirect target accessor read by the follower", len(used), 1, "the follower no longer reads the redirect target from the response")
+    for acc in used:
+        m = ci.methods.get(acc)
+        if m is None:
+            chk.ob("G6", f"response.{acc} is a plain field", True, nontrivial=False)
+            continue
+
+        def plain(e, fi, depth=0):
+            if depth > 3:
+                return False
+            if dotted(e) == "self.meta":
+                return True
+            if isinstance(e, ast.Call) and method_call(e) and method_call(e)[1] == "strip" and not e.args:
+                return plain(method_call(e)[0], fi, depth + 1)
+            if isinstance(e, ast.Call) and (dotted(e.func) or "").startswith("self.") and not e.args:
+                h = ci.methods.get((dotted(e.func) or "")[5:])
+                return h is not None and all(r.value is not None and plain(r.value, h, depth + 1) for r in walk(h.node) if isinstance(r, ast.Return))
+            if isinstance(e, ast.Name):
+                ds = [st.value for st in walk(fi.node) if isinstance(st, ast.Assign) and any(isinstance(t, ast.Name) and t.id == e.id for t in st.targets)]
+                return bool(ds) and all(plain(v, fi, depth + 1) for v in ds)
+            return False
+
+        rets = [r for r in walk(m.node) if isinstance(r, ast.Return) and r.value is not None and not (isinstance(r.value, ast.Constant) and r.value.value is None)]
+        bad = [r for r in rets if not plain(r.value, m)]
+        ok = bool(rets) and not bad
+        if not ok:
+            chk.finding(
+                "G6", m.key, f"target-altered:{norm(bad[0].value)[:50] if bad else 'none'}",
+                f"GeminiResponse.{acc} returns `{norm(bad[0].value) if bad else 'nothing'}` instead of the meta as sent: a redirect target containing the altered characters (e.g. `;`) is followed to a different URL, so a loop-free chain does not reach its final response (or a false loop is reported)",
+                m.loc(),
+            )
+        chk.ob("G6", f"GeminiResponse.{acc} returns the meta unaltered", ok, evals=len(rets))
+
+
 def run(chk: Check) -> None:
     rule_g(chk)
+    rule_g6(chk)
     from .c03 import rule_t6
 
     before = len(chk.findings)
